@@ -7,7 +7,7 @@ HOOK_COMMITS = ["82d54e0", "06e15f0", "cd0ed04", "7dd122d"]
 P = {
  "C15": ("cachemodel", "exploration",
          "reference-model monitor over bounded-exhaustive + seeded random op sequences (testing/synctest quiescence for async callbacks)",
-         "Every canonical sequence of Set/Get/Delete/clock-advance/Close up to the tier's length over 3 keys, capacities 1-3, four policies, expiry on/off, sync/async callbacks is executed on the real cache and compared after every op with a reference model (exact for LRU/SLRU, exact up to ties for LFU, generic invariants for TinyLFU), plus seeded random sequences at capacities on both sides of the 80% and 1% thresholds, plus real-goroutine rounds (8 workers; every key set once with a unique value, then read and deleted by anybody) with a conservation oracle: each entry is removed by exactly one successful Delete or reported by exactly one callback carrying its own value. Held on what was executed; nothing beyond the bound is claimed.",
+         "Every canonical sequence of Set/Get/Delete/clock-advance/Close up to the tier's length over 3 keys, capacities 1-3 (and shorter sequences on nearly empty caches of capacity 99-250), four policies, expiry on/off, sync/async callbacks is executed on the real cache and compared after every op with a reference model (exact for LRU/SLRU, exact up to ties for LFU, generic invariants for TinyLFU), plus seeded random sequences at capacities on both sides of the 80% and 1% thresholds, plus real-goroutine rounds (8 workers; every key set once with a unique value, then read and deleted by anybody) with a conservation oracle: each entry is removed by exactly one successful Delete or reported by exactly one callback carrying its own value. Held on what was executed; nothing beyond the bound is claimed.",
          "Trusted: the reference models (written from the policy definitions), testing/synctest quiescence, Go runtime. Panics are caught per sequence; a 120 s no-progress watchdog reports a hang.",
          "3/C15"),
  "C01": ("hist", "exploration",
@@ -17,7 +17,7 @@ P = {
          "3/C01"),
  "C03": ("hist", "exploration",
          "online trace checker over AEAD/KMS/metastore/secret-factory/log monitor events (key-role provenance typing, duplicate-free nonce and (key,nonce) sets, artefact byte scanning)",
-         "Every AEAD.Encrypt the SDK issues during seeded histories (debug logging on) is typed against the hierarchy payload<fresh DRK<partition IK<service SK<KMS using roles derived from provenance; nonce and (key,nonce) sets must stay duplicate-free; each data key must be a CreateRandom secret of the same call used exactly once; every record, stored row, KMS output and log line is scanned for known plaintext keys/payloads in raw, base64 (std/url), hex, decimal-list and Go-syntax renderings. Transient read/KMS/allocator faults run inside the histories, and a scripted matrix fails the k-th allocation or KMS call of the first operation of a process that loads persisted keys and then checks the records it goes on to write. The test binary is re-executed as several consecutive process lives over the same persisted keys: the (key, nonce) pairs of all lives must be pairwise distinct.",
+         "Every AEAD.Encrypt the SDK issues during seeded histories (debug logging on) is typed against the hierarchy payload<fresh DRK<partition IK<service SK<KMS using roles derived from provenance; nonce and (key,nonce) sets must stay duplicate-free; each data key must be a CreateRandom secret of the same call used exactly once; every record, stored row, KMS output and log line is scanned for known plaintext keys/payloads in raw, base64 (std/url), hex, decimal-list and Go-syntax renderings. Transient read/KMS/allocator faults run inside the histories, and a scripted matrix fails the k-th allocation or KMS call of the first operation of a process that loads persisted keys and then checks the records it goes on to write. The test binary is re-executed as several consecutive process lives over the same persisted keys: the (key, nonce) pairs of all lives must be pairwise distinct. The gRPC sidecar's standard log is captured while requests fail on injected faults and scanned too.",
          "Trusted: monitors see everything because the SDK reaches AEAD/KMS/metastore/secret factory only through these interfaces; a 96-bit nonce repeat is treated as a violation.",
          "3/C03"),
  "C04": ("hist", "exploration",
@@ -37,12 +37,12 @@ P = {
          "3/C02"),
  "C09": ("faults", "fault_enumeration",
          "leak ledger (tracking SecretFactory) over fault enumeration incl. allocator and AEAD faults, duplicate-key schedules, with call-site attribution through a tagged hook",
-         "Every secret the SDK allocates goes through a ledger wrapped around the real memguard factory. Over the C02 cells plus decrypt ops and a session-cache configuration, every single fault position in metastore/KMS/AEAD/allocator/secret access (access refused, or release failing after the callback ran; pairs sampled in quick, all in thorough), over 2-process duplicate-key schedules and over the gRPC sidecar's stream handler (streams ending normally or aborted): the data key must be closed when the call returns, with caching disabled every secret of the call must be closed at return, and after session+factory Close (asynchronous teardown quiesced with synctest.Wait) every secret must have been closed and never touched afterwards.",
+         "Every secret the SDK allocates goes through a ledger wrapped around the real memguard factory. Over the C02 cells plus decrypt ops and a session-cache configuration, every single fault position in metastore/KMS/AEAD/allocator/secret access (access refused, or release failing after the callback ran; pairs sampled in quick, all in thorough), every memory primitive of the real secure-memory implementations failing in turn (monitored memcall), the caller's context cancelled while a KMS call is in flight, over 2-process duplicate-key schedules and over the gRPC sidecar's stream handler (streams ending normally or aborted): the data key must be closed when the call returns, with caching disabled every secret of the call must be closed at return, and after session+factory Close (asynchronous teardown quiesced with synctest.Wait) every secret must have been closed and never touched afterwards.",
          "Known finding F7b (reference on the re-resolved parent SK never released) is attributed through the ikfromekr.reresolved_sk hook and listed in known_findings.json; any other leak fails the check.",
          "3/C09"),
  "C10": ("faults", "fault_enumeration",
          "retained-buffer scan: monitors keep the very slices that held key plaintext and read them at return, over fault enumeration and over fake regional AWS KMS clients",
-         "The AEAD, KMS and SecretFactory monitors retain every slice that carried key plaintext (argument of SecretFactory.New, AEAD.Decrypt outputs other than the caller's payload, KMS.DecryptKey outputs, GenerateDataKey/Decrypt Plaintext and Encrypt request buffers of the fake AWS clients, also when the AEAD fails after the data key was handed out) and check they are all-zero when the public call returns, for every single fault position (pairs sampled/complete) in metastore/KMS/AEAD/allocator/secret access over encrypt and decrypt ops, and for every wrap/unwrap failure combination of both AWS plug-ins up to 2 (quick) / 3 (thorough) regions.",
+         "The AEAD, KMS and SecretFactory monitors retain every slice that carried key plaintext (argument of SecretFactory.New, AEAD.Decrypt outputs other than the caller's payload, KMS.DecryptKey outputs, GenerateDataKey/Decrypt Plaintext and Encrypt request buffers of the fake AWS clients, also when the AEAD fails after the data key was handed out) and check they are all-zero when the public call returns, for every single fault position (pairs sampled/complete) in metastore/KMS/AEAD/allocator/secret access/memcall primitive (real secure memory over a monitored memcall) over encrypt and decrypt ops, with the caller's context cancelled during a KMS call, and for every wrap/unwrap failure combination of both AWS plug-ins up to 2 (quick) / 3 (thorough) regions.",
          "Holding the reference keeps the memory from being recycled, so reading it after the call is sound. Only buffers that cross a monitored interface are visible.",
          "3/C10"),
  "C13": ("mstore", "exploration",
@@ -57,22 +57,22 @@ P = {
          "3/C14"),
  "C17": ("awskms", "fault_enumeration",
          "exhaustive regional failure enumeration over fake AWS KMS clients behind both plug-in client interfaces, cross-version",
-         "For 1..3 (quick) / 1..4 (thorough) regions: every preferred region x every subset failing GenerateDataKey x every subset failing Encrypt; for each envelope every non-empty configured subset x preferred x every subset failing Decrypt, for v1->v1, v2->v2, v1->v2, v2->v1 and several builds (map orders; every other v2 build starts from a base aws.Config that already carries a region). Oracle over results and the per-region call log: success iff a configured region with an entry can decrypt, identical bytes, preferred-first order for Decrypt and GenerateDataKey, envelope entries = regions that succeeded, plaintext data key wiped, SK bytes never in a request.",
+         "For 1..3 (quick) / 1..4 (thorough) regions: every preferred region x every subset failing GenerateDataKey x every subset failing Encrypt; for each envelope every non-empty configured subset x preferred x every subset failing Decrypt, for v1->v1, v2->v2, v1->v2, v2->v1 and several builds (map orders; every other v2 build starts from a base aws.Config that already carries a region); regions that hang for 1 s .. 10 min of virtual time before they time out, with context-aware fakes. Oracle over results and the per-region call log: success iff a configured region with an entry can decrypt, identical bytes, preferred-first order for Decrypt and GenerateDataKey, envelope entries = regions that succeeded, plaintext data key wiped, SK bytes never in a request.",
          "Trusted: fake regional clients written from the KMS API semantics. Real AWS is out of reach.",
          "3/C17"),
  "C20": ("hist", "exploration",
          "exact call-count oracle from metastore/KMS monitors in virtual time, attributed to the key-cache scope, plus barrier schedules at the lock-free hook point of GetOrLoad and at auto-generated after-unlock hooks (build overlay) inside the latest-key lookup",
-         "A producer creates keys and records; a cold factory under test with 1-3 sessions for 1-20 partitions runs seeded mixes of encrypts/decrypts with clock advances strictly before, just after and long after loadedAt+interval for per-session, shared, session-cached and uncached configurations. Repeats of an op that already succeeded must make 0 external calls inside the interval, exactly 1 read of the key's record on first use after it, never a Store; one KMS unwrap per SK per factory per interval; without caching (for both or for one key type, whatever the shared-cache option says) every call loads and retains no secret. N sessions reaching a stale key at the same instant (decrypt and encrypt path, same/new partitions, shared IK cache) must cause one reload.",
+         "A producer creates keys and records; a cold factory under test with 1-3 sessions for 1-20 partitions runs seeded mixes of encrypts/decrypts with clock advances strictly before, just after and long after loadedAt+interval for per-session, shared, session-cached and uncached configurations. Repeats of an op that already succeeded must make 0 external calls inside the interval, exactly 1 read of the key's record on first use after it, never a Store; one KMS unwrap per SK per factory per interval; without caching (for both or for one key type, whatever the shared-cache option says) every call loads and retains no secret. An in-place rotation (keys expire while cached as latest) followed by further partitions must stay within one unwrap per system key. N sessions reaching a stale key at the same instant (decrypt and encrypt path, same/new partitions, shared IK cache) must cause one reload.",
          "Keys never expire and nothing is revoked in these scenarios so that every call is attributable to caching.",
          "3/C20"),
  "C06": ("inputs", "exploration",
          "adversarial id-pair generation from the key-id naming scheme executed through the real decrypt path; err != nil oracle; known-finding filter by signature",
-         "Pairs of distinct partition ids derived from the naming scheme (P vs P_service_product[_region], prefixes, suffixes, case/unicode variants and simple-fold twins, ids that would match if ids were interpreted as regex/glob/LIKE patterns, ids embedding _IK_/_SK_, 255-byte ids, random) for four service/product shapes are executed in both directions, cold and warm, with per-session, shared-IK and session caches, over a plain metastore, a suffix-advertising wrapper and the real DynamoDB v1/v2 metastores with region suffix on the fake: a session for B must return an error for A's record each of three times in a row (once more after one of its own records); empty ids must be refused.",
+         "Pairs of distinct partition ids derived from the naming scheme (P vs P_service_product[_region], prefixes, suffixes, case/unicode variants and simple-fold twins, ids that would match if ids were interpreted as regex/glob/LIKE patterns, ids embedding _IK_/_SK_, 255-byte ids, random) for four service/product shapes are executed in both directions, cold and warm, with per-session, shared-IK and session caches, over a plain metastore, a suffix-advertising wrapper and the real DynamoDB v1/v2 metastores with region suffix on the fake: a session for B must return an error for A's record each of three times in a row (once more after one of its own records); empty ids must be refused. A lifecycle pass uses sessions after Close, closes them twice and interleaves other partitions' sessions.",
          "Known finding F3 (suffixed partition accepts ids that merely start with its unsuffixed IK id) is excused by a narrow signature; every other foreign decrypt fails the check. Region suffixes are assumed underscore-free.",
          "3/C06"),
  "C07": ("inputs", "exploration",
          "systematic mutation (exhaustive single-bit flips, truncations, splices, hostile parent meta, corrupted key rows) with a payload-or-error oracle; recover() per case; race detector / checkptr",
-         "Every single-bit flip and truncation of Data and of the encrypted data key of a genuine corpus, all ordered pairs of records exchanging Data/key/parent meta/created, parent meta pointing at every existing key id with odd Created values (also on a region-suffixing metastore), structurally empty records, random JSON, every bit flip of IK/SK row ciphertexts and malformed rows seen by cold factories, storage-level corruption underneath the real plug-ins (DynamoDB items of wrong shape/type, malformed key_record JSON in SQL), and Session.Load with hostile loaders: each case must yield exactly the payload originally encrypted under that Data, or an error; a panic or process death is a violation.",
+         "Every single-bit flip and truncation of Data and of the encrypted data key of a genuine corpus, all ordered pairs of records exchanging Data/key/parent meta/created, parent meta pointing at every existing key id with odd Created values (also on a region-suffixing metastore), structurally empty records, random JSON, every bit flip of IK/SK row ciphertexts and malformed rows seen by cold factories, storage-level corruption underneath the real plug-ins (DynamoDB items of wrong shape/type, malformed key_record JSON in SQL), Session.Load with hostile loaders, and records presented to sessions closed once or twice or whose factory is closed: each case must yield exactly the payload originally encrypted under that Data, or an error; a panic or process death is a violation.",
          "AES-GCM tag forgery (2^-128 per mutant) is treated as impossible. Runs under -race, which implies checkptr.",
          "3/C07"),
  "C08": ("conc", "exploration",
@@ -92,17 +92,17 @@ P = {
          "3/C12"),
  "C16": ("conc", "exploration",
          "bounded-exhaustive session-cache programs in virtual time with a holder/teardown monitor over the env.close hook and debug-log correlation; stress under the race detector",
-         "Every program of L steps over {get session for partition 0/1/2, use oldest/newest handle, close oldest/newest handle, advance past SessionCacheDuration, close factory} for cache sizes 1-2 and the eviction policies; synctest.Wait quiesces the asynchronous Remove goroutines after every step; every held handle must keep working, consecutive gets share one *Session, teardown (env.close) fires exactly once per session incarnation and never while the harness counts a holder. Long scripted programs drive caches of 100/101 entries (3x capacity partitions, double requests, revisits, a handle held across the churn) for all policies; seeded real-time schedules of holders, closers and evicting newcomers run with before-lock/after-unlock yield hooks. Stress: 16 goroutines x 6 partitions, size-2 cache, 1-2 ms expiry, same oracle after quiescence; plus monitor-free passes for the race detector.",
+         "Every program of L steps over {get session for partition 0/1/2, use oldest/newest handle, close oldest/newest handle, advance past SessionCacheDuration, close factory} for cache sizes 1-2 and the eviction policies; synctest.Wait quiesces the asynchronous Remove goroutines after every step; every held handle must keep working, consecutive gets share one *Session, teardown (env.close) fires exactly once per session incarnation and never while the harness counts a holder. Programs are repeated with session-cache durations of 250 years and MaxInt64. Long scripted programs drive caches of 100/101 entries (3x capacity partitions, double requests, revisits, a handle held across the churn) for all policies; seeded real-time schedules of holders, closers and evicting newcomers run with before-lock/after-unlock yield hooks. Stress: 16 goroutines x 6 partitions, size-2 cache, 1-2 ms expiry, same oracle after quiescence; plus monitor-free passes for the race detector.",
          "Session incarnations are identified through the SDK's [newSession] debug line (addresses are reused).",
          "3/C16"),
  "C18": ("format", "exploration",
          "differential check against an independent reference codec written from the documentation, both directions, through every persistence format and the gRPC mapping; known-answer vectors",
-         "A reference implementation using only encoding/json on generic maps, base64 and crypto/aes+cipher parses strictly and decrypts what the SDK writes, and the SDK decrypts what the reference writes, through JSON DRRs, memory, SQL key_record rows (3 dialects), DynamoDB v1/v2 items (with/without region suffix), mixed hierarchies (reference SK, SDK IK), StaticKMS envelopes and protobuf messages; field names/presence, base64, ciphertext|tag|nonce and key-id shapes are asserted; McGrew-Viega AES-256-GCM vectors must open through the SDK's AEAD.",
+         "A reference implementation using only encoding/json on generic maps, base64 and crypto/aes+cipher parses strictly and decrypts what the SDK writes, and the SDK decrypts what the reference writes, through JSON DRRs, memory, SQL key_record rows (3 dialects), DynamoDB v1/v2 items (with/without region suffix), mixed hierarchies (reference SK, SDK IK), StaticKMS envelopes and protobuf messages; field names/presence, base64, ciphertext|tag|nonce and key-id shapes are asserted; key blobs of every base64 padding class go through every store in both directions, the application's payload buffer is reused before the record is serialised, region suffixes of default-client constructions are checked; McGrew-Viega AES-256-GCM vectors must open through the SDK's AEAD.",
          "The reference stands in for the Java/C# peers; Go's AES-GCM is anchored by the known answers.",
          "3/C18"),
  "C19": ("grpcsrv", "exploration",
          "reference protocol automaton over bounded-exhaustive request sequences on an in-process stream plus concurrent streams over real gRPC (bufconn) under the race detector",
-         "Every request sequence up to length L over {get-session valid/empty, encrypt, decrypt genuine/foreign/corrupt/empty(4 shapes), empty request} + end-of-stream runs through AppEncryption.Session; an automaton {uninitialised, initialised, rejected} gives the expected response class, responses are counted per request, panics recovered. 8 concurrent streams x seeded 40-request sequences per round over bufconn check the same automaton per stream (a handler panic there kills the process and is reported as a crash), for the server built with and without the shared session cache (three partitions, cache of 2), and cold-start rounds of 8 lock-step streams run against a fresh server whose metastore alternates between healthy and failing (all reads / only SK reads / only IK reads) with ever-changing error texts.",
+         "Every request sequence up to length L over {get-session valid/empty, encrypt, decrypt genuine/foreign/corrupt/empty(4 shapes), empty request} + end-of-stream runs through AppEncryption.Session; an automaton {uninitialised, initialised, rejected} gives the expected response class, responses are counted per request, panics recovered. 8 concurrent streams x seeded 40-request sequences per round over bufconn check the same automaton per stream (a handler panic there kills the process and is reported as a crash), for the server built with and without the shared session cache (three partitions, cache of 2), and cold-start rounds of 8 lock-step streams run against a fresh server whose metastore alternates between healthy and failing (all reads / only SK reads / only IK reads) with ever-changing error texts; a broken-peer scenario fails the k-th Send of one stream while a sibling stream of the same partition stays open and the partition is then evicted.",
          "main() and flag parsing are not exercised.",
          "3/C19"),
 }
